@@ -349,12 +349,18 @@ Proof.
   set (line := fun kv : str * Val => match to_x (snd kv) with
                                       | Some x => [field_name (snd kv) ++ colon_space ++ render x]
                                       | None => [] end).
+  assert (Hg : forall l acc, fold_left (fun acc kv => match to_x (snd kv) with
+                                                   | Some x => acc ++ [field_name (snd kv) ++ colon_space ++ render x]
+                                                   | None => acc end) l acc = acc ++ flat_map line l).
+  { induction l as [|y t IH]; intro acc; simpl. symmetry. apply app_nil_r.
+    assert (Hy : line y = match to_x (snd y) with
+                          | Some x => [field_name (snd y) ++ colon_space ++ render x]
+                          | None => [] end) by reflexivity.
+    rewrite Hy. destruct (to_x (snd y)); rewrite IH. rewrite <- app_assoc. reflexivity. reflexivity. }
   assert (Hl : forall l, fold_left (fun acc kv => match to_x (snd kv) with
                                                    | Some x => acc ++ [field_name (snd kv) ++ colon_space ++ render x]
                                                    | None => acc end) l [] = flat_map line l).
-  { intro l. rewrite <- (app_nil_l (flat_map line l)). generalize (@nil str).
-    induction l as [|y t IH]; intro acc; simpl. symmetry. apply app_nil_r.
-    unfold line at 2. destruct (to_x (snd y)); rewrite IH. rewrite <- app_assoc. reflexivity. reflexivity. }
+  { intro l. rewrite Hg. reflexivity. }
   rewrite !Hl.
   rewrite (sort_strings_perm_invariant (flat_map line l1) (flat_map line l2) (flat_map_perm line l1 l2 Hp)).
   apply sorted_entries_equiv.
@@ -456,30 +462,38 @@ Qed.
 (* ================================================================================================ *)
 (** * flows/definition/migrations/base.go *)
 
+Lemma version_ltb_spec : forall a1 a2 a3 b1 b2 b3,
+  version_ltb (a1, a2, a3) (b1, b2, b3) = true <->
+  (a1 < b1 \/ (a1 = b1 /\ (a2 < b2 \/ (a2 = b2 /\ a3 < b3))))%N.
+Proof.
+  intros. unfold version_ltb.
+  rewrite !orb_true_iff, !andb_true_iff, !orb_true_iff, !andb_true_iff, !N.ltb_lt, !N.eqb_eq. reflexivity.
+Qed.
+
+Lemma version_leb_spec : forall a1 a2 a3 b1 b2 b3,
+  version_leb (a1, a2, a3) (b1, b2, b3) = true <->
+  ~ (b1 < a1 \/ (b1 = a1 /\ (b2 < a2 \/ (b2 = a2 /\ b3 < a3))))%N.
+Proof.
+  intros. unfold version_leb. rewrite negb_true_iff. rewrite <- version_ltb_spec.
+  destruct (version_ltb (b1, b2, b3) (a1, a2, a3)); split; intro H; try reflexivity; try discriminate.
+  - exfalso. apply H. reflexivity.
+  - intro E. discriminate.
+Qed.
+
 Lemma version_leb_total : forall a b, version_leb a b = true \/ version_leb b a = true.
 Proof.
-  intros [[a1 a2] a3] [[b1 b2] b3]. unfold version_leb, version_ltb.
-  destruct (N.ltb_spec a1 b1); destruct (N.ltb_spec b1 a1); destruct (N.eqb_spec a1 b1); destruct (N.eqb_spec b1 a1);
-    destruct (N.ltb_spec a2 b2); destruct (N.ltb_spec b2 a2); destruct (N.eqb_spec a2 b2); destruct (N.eqb_spec b2 a2);
-    destruct (N.ltb_spec a3 b3); destruct (N.ltb_spec b3 a3); simpl; auto; lia.
+  intros [[a1 a2] a3] [[b1 b2] b3]. rewrite !version_leb_spec. lia.
 Qed.
 
 Lemma version_leb_antisym : forall a b, version_leb a b = true -> version_leb b a = true -> a = b.
 Proof.
-  intros [[a1 a2] a3] [[b1 b2] b3]. unfold version_leb, version_ltb.
-  destruct (N.ltb_spec a1 b1); destruct (N.ltb_spec b1 a1); destruct (N.eqb_spec a1 b1); destruct (N.eqb_spec b1 a1);
-    destruct (N.ltb_spec a2 b2); destruct (N.ltb_spec b2 a2); destruct (N.eqb_spec a2 b2); destruct (N.eqb_spec b2 a2);
-    destruct (N.ltb_spec a3 b3); destruct (N.ltb_spec b3 a3); simpl; intros H1 H2; try discriminate; try lia.
-  all: repeat f_equal; lia.
+  intros [[a1 a2] a3] [[b1 b2] b3]. rewrite !version_leb_spec. intros Hx Hy.
+  assert (a1 = b1) by lia. assert (a2 = b2) by lia. assert (a3 = b3) by lia. subst. reflexivity.
 Qed.
 
 Lemma version_leb_trans : forall a b c, version_leb a b = true -> version_leb b c = true -> version_leb a c = true.
 Proof.
-  intros [[a1 a2] a3] [[b1 b2] b3] [[c1 c2] c3]. unfold version_leb, version_ltb.
-  repeat match goal with
-         | |- context [N.ltb ?x ?y] => destruct (N.ltb_spec x y)
-         | |- context [N.eqb ?x ?y] => destruct (N.eqb_spec x y)
-         end; simpl; intros H1 H2; try discriminate; try reflexivity; lia.
+  intros [[a1 a2] a3] [[b1 b2] b3] [[c1 c2] c3]. rewrite !version_leb_spec. lia.
 Qed.
 
 Theorem migrate_versions_perm_invariant : forall {F : Type} from to (l1 l2 : list (version * F)),
